@@ -448,6 +448,8 @@ class Gen:
         if len(cols) < 2:
             return None
         k = self.rng.randint(1, len(cols) - 1)
+        if self.rng.random() < 0.15:
+            k = len(cols)  # keeps every column, in another order
         keep = self.rng.sample(cols, k)
         return {"op": "select_columns", "cols": keep}, {}
 
@@ -561,6 +563,8 @@ class Gen:
             on = [[k, nk]] + [[x, x] for x in on[1:]]
             self.cnt("paired_keys_join")
         step = {"op": "natural_join", "on": on, "jointype": jt}
+        if on and all(isinstance(k, str) for k in on) and rng.random() < 0.15:
+            step["legacy_by"] = True  # the deprecated spelling natural_join(by=[...])
         return step, right
 
     def step_concat(self, st, depth_left):
